@@ -14,7 +14,7 @@ META = dict(
     assumptions=['k (sections) is any integer <= n+3 (unbounded below: every k <= 0 is covered; k > n+3 is outside because the error message formats k, which '
                  'would make CrossHair enumerate it); shard index i in [-k-2, k+2)'],
     bounds=dict(quick='n in 0..6, list- and dict-backed', thorough='n in 0..10'),
-    outside=['n above the bound ("exhaustive for N up to a few hundred" is not claimed)'],
+    outside=['history across calls through functools.lru_cache (CrossHair bypasses such caches; covered only by the concrete validation run on pinned (k, i) pairs)', 'n above the bound ("exhaustive for N up to a few hundred" is not claimed)'],
 )
 
 
@@ -74,5 +74,6 @@ def body_split(backing, n, k, i):
 FAMILIES = [
     Family('split', body_split, ['backing', 'n'], [('k', 'int'), ('i', 'int')],
            lambda tier, seed: [(b, n) for b in ('list', 'dict') for n in range(0, (7 if tier == 'quick' else 11))],
+           pinned=lambda sel: [(k, i) for k in range(1, sel[1] + 1) for i in (-1, 0, k - 1, -k)][:16],
            timeout=dict(quick=90, thorough=600), desc='split(k) partitions in order with sizes differing by <= 1; shard(k,i) == split(k)[i]; invalid k rejected'),
 ]
